@@ -73,6 +73,7 @@ type FuncContract struct {
 	NoInline  bool
 	Trusted   bool // body not verified (assumed contract); listed in evidence
 	Strict    bool // slice expressions in the body must stay within len (not cap)
+	Partial   bool // only the listed assertions (and covers) are obligations: the function is not otherwise verified
 	Modifies  []string
 	HasMod    bool
 	Line      int
@@ -98,7 +99,7 @@ type ContractFile struct {
 	Lemmas  []*Lemma
 }
 
-var kwRe = regexp.MustCompile(`^(import|option|spec|end|func|extern|props|requires|ensures|assumes|old|inline|noinline|trusted|strict|pure|modifies|loop|invariant|decreases|assert|lossless|atomic-step|lemma|axiom|iface)\b`)
+var kwRe = regexp.MustCompile(`^(import|option|spec|end|func|extern|props|requires|ensures|assumes|old|inline|noinline|trusted|strict|partial|pure|modifies|loop|invariant|decreases|assert|lossless|atomic-step|lemma|axiom|iface)\b`)
 var tagRe = regexp.MustCompile(`^\[([A-Za-z0-9_, ]+)\]\s*`)
 var labelRe = regexp.MustCompile(`^([a-zA-Z_][a-zA-Z0-9_]*):\s+`)
 
@@ -250,6 +251,8 @@ func ParseContractFile(path, source string) (*ContractFile, error) {
 				cur.Trusted = true
 			case "strict":
 				cur.Strict = true
+			case "partial":
+				cur.Partial = true
 			case "pure":
 				cur.HasMod = true
 				cur.Modifies = nil
